@@ -49,3 +49,9 @@ claim("C15",
       "Decides the rejection, placement, reuse-first and never-exceed STRUCTURE only: the minimum-size test dominates all work; every creation lies behind the allow flag and the success edge of a free-disk check of the shortfall; per-path fill/check/creation use the same requested directory which reaches the plot file path; generate runs only after an unfinished fill over the indexed spaces and continues from its total; selection/creation lie behind the comparison with the target for the very bit length used; smallest usable bit length = chain minimum.",
       "Trusted: go/ssa, PlotSize monotone. NOT decided: the arithmetic (exact totals, shortfall < smallest plot, exact counts) and persistence of the selection across restart — value facts.",
       "DESIGN.md §4 C15")
+
+claim("C19",
+      "provenance of every leveldb key + edge-cut dominance of name validation + handle discipline + sibling agreement (clone comparison)",
+      "Structural isolation argument for the bucket store on every leveldb call site of package ldb: keys come only from the one key constructor (path+separator+key), index keys, or prefix iterators; every index write is dominated by validation of the name against the join separator; write buckets use only their own transaction, read-only buckets cannot write, BeginTx/Commit/Rollback map to the leveldb transaction; scans use path+separator prefixes and pathLen=len(path); the two bucket kinds agree operation-for-operation; db.Update has the rollback/commit shape.",
+      "Trusted: go/ssa, goleveldb transaction semantics, util.BytesPrefix. NOT decided: map semantics for all operation sequences; adversarial keys beyond the separator rule; rdb (rocksdb tag, cgo) cannot be loaded and is out of scope.",
+      "DESIGN.md §4 C19")
